@@ -34,8 +34,8 @@ def instances(ck):
             extra["kf"] = kf
         c = cls or cnfgen.CNF
         rec = gen.build(rid + ("-OPB" if cls is OPB else ""), fam, par, lambda: fn(c), graph, extra)
-        if rec["outcome"] == "ok" and (nosat or rec["nvars"] > 20):
-            # beyond 2^20 assignments only the documented axioms are compared (TLC's set-size limit)
+        if rec["outcome"] == "ok" and (nosat or rec["nvars"] > 17):
+            # beyond 2^17 assignments only the documented axioms are compared (time; TLC set-size limit at 2^21)
             rec["cand"] = [[False] * rec["nvars"]]
         recs.append(rec)
 
